@@ -50,7 +50,8 @@ def main():
             # keep what other properties reported at the last full run
             old = json.load(open(os.path.join(d, "checks.json")))
             for k, v in old.get("reported", {}).items():
-                out["reported"].setdefault(k, v)
+                if k != sid.split("-")[0]:
+                    out["reported"].setdefault(k, v)
         json.dump(out, open(os.path.join(d, "checks.json"), "w"), indent=1)
         tgt = sid.split("-")[0]
         print("%-8s target %s: %s  | others: %s %s" % (
